@@ -22,6 +22,7 @@ type MParam struct {
 
 type MRoute struct {
 	Verb  string   `json:"verb"`
+	Abs   bool     `json:"absolute"` // RouteExpr.IsAbsolute: the route path starts with "//"
 	Paths []string `json:"paths"`
 }
 
@@ -54,6 +55,7 @@ type MService struct {
 }
 
 type MDesign struct {
+	APIBase  string     `json:"api_base"` // root.API.HTTP.Path
 	Services []MService `json:"services"`
 	APIReqs  [][]string `json:"api_reqs"`
 	Schemes  []string   `json:"schemes"`
@@ -99,7 +101,7 @@ func marked(metas ...expr.MetaExpr) bool {
 
 // extractModel reads the finalized design from expr.Root.
 func extractModel() *MDesign {
-	md := &MDesign{APIReqs: reqNames(expr.Root.API.Requirements)}
+	md := &MDesign{APIReqs: reqNames(expr.Root.API.Requirements), APIBase: expr.Root.API.HTTP.Path}
 	for _, s := range expr.Root.Schemes {
 		md.Schemes = append(md.Schemes, s.SchemeName)
 	}
@@ -108,7 +110,7 @@ func extractModel() *MDesign {
 		for _, e := range hs.HTTPEndpoints {
 			me := MEndpoint{Name: e.Name(), Body: e.Body.Type != expr.Empty, Multipart: e.MultipartRequest, Gen: !marked(e.Meta, e.MethodExpr.Meta)}
 			for _, r := range e.Routes {
-				me.Routes = append(me.Routes, MRoute{Verb: strings.ToUpper(r.Method), Paths: r.FullPaths()})
+				me.Routes = append(me.Routes, MRoute{Verb: strings.ToUpper(r.Method), Abs: r.IsAbsolute(), Paths: r.FullPaths()})
 			}
 			me.Params = mapped(e.Params, false)
 			me.Headers = mapped(e.Headers, true)
@@ -221,7 +223,7 @@ func (in *interner) coqDesign(md *MDesign) (string, bool) {
 					ok = ok && o
 					ps = append(ps, t)
 				}
-				rts = append(rts, fmt.Sprintf("mkr %s [%s]", r.Verb, strings.Join(ps, "; ")))
+				rts = append(rts, fmt.Sprintf("mkr %s %s [%s]", r.Verb, vh.CoqBool(r.Abs), strings.Join(ps, "; ")))
 			}
 			basic := "None"
 			if e.Basic != nil {
@@ -242,7 +244,37 @@ func (in *interner) coqDesign(md *MDesign) (string, bool) {
 		}
 		svcs = append(svcs, fmt.Sprintf("mkms [%s] [%s] %s", strings.Join(eps, "; "), strings.Join(fss, "; "), vh.CoqBool(s.Gen)))
 	}
-	return fmt.Sprintf("(mkmd [%s] %s)", strings.Join(svcs, "; "), in.reqs(md.APIReqs)), ok
+	bt, bok := in.basePath(md.APIBase)
+	return fmt.Sprintf("(mkmd [%s] %s %s)", strings.Join(svcs, "; "), in.reqs(md.APIReqs), bt), ok && bok
+}
+
+// basePath tokenises a base path: "" is the empty path.
+func (in *interner) basePath(p string) (string, bool) {
+	if p == "" {
+		return "[]", true
+	}
+	return in.pathAttr(p)
+}
+
+// coqWritten prints openapi.json as written: its basePath and its (method, path key) pairs.
+func (in *interner) coqWritten(doc map[string]any) (string, bool) {
+	bt, ok := in.basePath(asString(doc["basePath"]))
+	var ks []string
+	for k, it := range asMap(doc["paths"]) {
+		if strings.HasPrefix(k, "x-") {
+			continue
+		}
+		for _, m := range docMethods {
+			if asMap(asMap(it)[m]) == nil {
+				continue
+			}
+			kt, kok := in.pathAttr(k)
+			ok = ok && kok
+			ks = append(ks, fmt.Sprintf("(%s, %s)", strings.ToUpper(m), kt))
+		}
+	}
+	sort.Strings(ks)
+	return fmt.Sprintf("(%s, [%s])", bt, strings.Join(ks, "; ")), ok
 }
 
 // pathAttr tokenises a path whose wildcard names are attribute names.
